@@ -158,18 +158,18 @@ def effectTable : List FnRow := [
 ]
 
 /-- the public sun and moon functions (sun.__all__, moon.__all__, moon angles) -/
-def publicFns : List Nat := [124, 107, 132, 121, 118, 133, 109, 108, 120, 136, 106, 115, 123, 138, 105, 111, 134, 85, 86, 87, 74, 75, 93]
+def publicFns : List Nat := [124, 107, 132, 121, 118, 133, 109, 108, 120, 136, 106, 115, 123, 138, 105, 111, 134, 85, 86, 87, 74, 75, 93, 0, 99, 72, 23, 96]
 
 /-- the public geocoder functions (module-level, not underscore-prefixed) -/
-def geoFns : List Nat := [16, 17, 18, 19, 20, 21]
+def geoFns : List Nat := [0, 8, 16, 17, 18, 19, 20, 21]
 
 /-- the functions of astral.julian and the time-unit helpers of astral/__init__ -/
-def julianFns : List Nat := [22, 24, 25, 26, 27, 28, 29, 30, 31, 141, 142]
+def julianFns : List Nat := [0, 22, 23, 24, 25, 26, 27, 28, 29, 30, 31, 141, 142]
 
 /-- every method of `Location` that is a query: not `__init__`, not a property setter -/
-def locationQueryFns : List Nat := [33, 35, 36, 37, 38, 39, 40, 41, 42, 44, 46, 47, 48, 49, 50, 52, 53, 54, 55, 56, 58, 59, 61, 62, 63, 64, 65, 66, 67, 69, 70, 71]
+def locationQueryFns : List Nat := [32, 33, 35, 36, 37, 38, 39, 40, 41, 42, 44, 46, 47, 48, 49, 50, 52, 53, 54, 55, 56, 58, 59, 61, 62, 63, 64, 65, 66, 67, 69, 70, 71]
 
 /-- the coordinate front end: dms_to_float and the validating `__setattr__`s -/
-def coordFns : List Nat := [1, 2, 3, 4, 5, 7]
+def coordFns : List Nat := [0, 1, 2, 3, 4, 5, 7]
 
 end Astral.Gen
